@@ -1155,6 +1155,12 @@ impl Ics {
             if !h.check(post.default_gas == default_gas.or(legacy_default_gas), "C18/migrate/default-gas-limit-wrong", || format!("{:?}", post.default_gas)) {
                 return false;
             }
+            // an upgrade is not governance: it allows nothing and changes no limit (the pre-allow-list format has no list)
+            let want: BTreeMap<String, Option<u64>> = if v1 { BTreeMap::new() } else { pre.allow.clone() };
+            h.out.count("allow_lists_compared_across_an_upgrade");
+            if !h.check(post.allow == want, "C18/migrate/allow-list-changed-by-the-upgrade", || format!("allow list after migrating from {version}: {:?}, expected {want:?}", post.allow)) {
+                return false;
+            }
         }
         if prop == "C12" {
             // books after migration: every (channel, denom) equals the ledger again (sent accounting)
@@ -1199,6 +1205,8 @@ enum Act {
     AckErr,
     Tmo,
     Legacy { v1: bool, default_gas: Option<u64> },
+    /// the bank credits a user with coins of some denomination
+    Fund { user: usize, denom: String, amount: u128 },
     Fault { flaky: bool, bank: bool },
     Adv,
 }
@@ -1226,6 +1234,11 @@ impl Ics {
                 Act::Fault { flaky, bank } => (w.chain_admin.clone(), Op::Fault { flaky, bank }),
                 Act::Adv => {
                     w.c.advance(1, 6);
+                    continue;
+                }
+                Act::Fund { user, denom, amount } => {
+                    let u = w.users[user].clone();
+                    w.c.fund(&u, amount, &denom);
                     continue;
                 }
                 Act::Legacy { v1, default_gas } => {
@@ -1292,6 +1305,23 @@ impl Ics {
                         Act::AckErr,
                     ],
                 );
+                true
+            }
+            // more denominations on one channel than any page holds: each one's outstanding amount must stay visible
+            ("C12", 6) => {
+                let mut script = vec![];
+                for i in 0..37u128 {
+                    let denom = format!("utoken{i:02}");
+                    script.push(Act::Fund { user: 0, denom: denom.clone(), amount: 5_000 });
+                    script.push(Act::Do(0, Op::TransferNative { channel: "channel-1".into(), denom, amount: 1_000 + i, extra_coin: false, timeout: None, memo: None }));
+                    if i % 3 == 0 {
+                        script.push(Act::AckOk);
+                    }
+                }
+                script.push(Act::Tmo);
+                script.push(Act::Relay(Op::ReturnVoucher { channel: ch.clone(), denom: "utoken36".into(), amount: 36, receiver: "@user:2".into() }));
+                self.play(h, (vec![(0, None)], None), script);
+                h.out.count("channels_with_more_than_30_denominations");
                 true
             }
             // v2 layout with a denomination whose only packet is still in flight
@@ -1453,6 +1483,7 @@ impl Monitor for Ics {
                 "receives_acked_error",
                 "receives_with_failed_payout",
                 "honest_returns_addressed_to_the_contract_itself",
+                "channels_with_more_than_30_denominations",
                 "error_acks_checked_for_no_change",
                 "acks_success_processed",
                 "acks_error_processed",
@@ -1474,6 +1505,7 @@ impl Monitor for Ics {
                 "former_gov_allow_rejected",
                 "gov_handovers_ok",
                 "migrations_ok",
+                "allow_lists_compared_across_an_upgrade",
                 "cw20_transfers_accepted",
                 "cw20_transfers_rejected_not_allowed",
                 "cw20_payout_gas_limits_checked",
